@@ -1,3 +1,4 @@
+import Hm.C16Select
 import Hm.C04Category
 import Hm.C18Req
 import Hm.C11Req
@@ -130,3 +131,8 @@ import Hm.Statements
 #print axioms C18_text_name_case
 #print axioms C03_request_line_category
 #print axioms C04_status_line_category
+#print axioms C16_default_charset
+#print axioms C16_charset_decides
+#print axioms forLabel_latin1
+#print axioms forLabel_utf8
+#print axioms forLabel_unknown
